@@ -16,7 +16,7 @@ from .driver import make_exc
 ASYNC_FLAVOURS = ("agen", "aclass", "aclass_noclose", "aplain", "agenlike", "aeager", "aeagerstop", "aproxy", "areiter", "alateclose")
 SYNC_FLAVOURS = ("list", "seq", "iter", "tuple", "tuplesub", "reiter", "sgen")
 SRC_FLAVOURS = ASYNC_FLAVOURS + SYNC_FLAVOURS
-FN_FLAVOURS = ("def", "async", "partial", "obj", "objaw", "falsyobj", "eqobj", "unhashobj", "aeqobj", "gencoro", "classaw")
+FN_FLAVOURS = ("def", "async", "partial", "obj", "objaw", "falsyobj", "eqobj", "unhashobj", "aeqobj", "gencoro", "classaw", "defcoro")
 
 
 class SourceBase:
@@ -643,6 +643,8 @@ class Fn:
             self.invoked += 1
             return body(*args)
 
+        if fl == "defcoro":
+            return coro  # a plain ``def`` (or lambda) that returns a coroutine: not a coroutine FUNCTION
         if fl == "async":
             async def counted(*args):
                 self.invoked += 1
